@@ -255,6 +255,50 @@ structure TrInv (L : LSt) (prev : Node) (seen snap : List Node) : Prop where
   sub : seen.reverse.Sublist (upto prev L.chain)
   cover : ∀ x ∈ snap, x ∈ seen ∨ x ∈ aft prev L.chain
 
+/-! #### `count(k)`: walk to `first`, walk to `second`, walk from `first` to `second` counting -/
+
+/-- `x` is equivalent to `k` (a predicate on nodes of the current list) -/
+abbrev Same (rule : Key → Rule) (L : LSt) (k : Key) (x : Node) : Prop := sameKey rule (L.key x) k = true
+
+/-- the snapshot taken when the call began: duplicate-free and still in the list -/
+structure SnapOk (L : LSt) (snap : List Node) : Prop where
+  nodup : snap.Nodup
+  sub : ∀ x ∈ snap, x ∈ L.chain
+
+/-- walking to the first equivalent element: every equivalent element of the snapshot is still ahead -/
+structure CInvA (rule : Key → Rule) (L : LSt) (k : Key) (prev : Node) (snap : List Node) : Prop where
+  sok : SnapOk L snap
+  prev_mem : prev ∈ L.chain
+  ahead : ∀ x ∈ snap, Same rule L k x → x ∈ aft prev L.chain
+
+/-- walking past the equivalent elements -/
+structure CInvB (rule : Key → Rule) (L : LSt) (k : Key) (prev first : Node) (snap : List Node) : Prop where
+  sok : SnapOk L snap
+  first_mem : first ∈ L.chain
+  first_same : Same rule L k first
+  prev_mem : prev ∈ L.chain
+  prev_same : Same rule L k prev
+  prev_pos : prev = first ∨ prev ∈ aft first L.chain
+  from_first : ∀ x ∈ snap, Same rule L k x → x = first ∨ x ∈ aft first L.chain
+
+/-- `second` (if it is not `end()`) is a non-equivalent element ahead of the walker -/
+def SecOk (rule : Key → Rule) (L : LSt) (k : Key) (prev : Node) : Option Node → Prop
+  | none => True
+  | some c => c ∈ L.chain ∧ ¬ Same rule L k c ∧ c ∈ aft prev L.chain
+
+/-- `std::distance(first, second)`: a traversal from `first`; everything strictly between `first` and `second` is equivalent
+or was linked after the call began -/
+structure CInvC (rule : Key → Rule) (L : LSt) (k : Key) (prev first : Node) (second : Option Node) (seen snap : List Node) :
+    Prop where
+  sok : SnapOk L snap
+  first_mem : first ∈ L.chain
+  first_same : Same rule L k first
+  tr : TrInv L prev seen (snap.filter (fun x => sameKey rule (L.key x) k))
+  prev_pos : prev = first ∨ prev ∈ aft first L.chain
+  sec : SecOk rule L k prev second
+  between : ∀ y ∈ aft first L.chain, (∀ c, second = some c → c ∈ aft y L.chain) → Same rule L k y ∨ y ∉ snap
+  seen_ok : ∀ y ∈ seen, Same rule L k y ∨ y ∉ snap
+
 def TInv (rule : Key → Rule) (L : LSt) (t : Tid) (th : Th) : Prop :=
   match th.pc with
   | .idle => True
@@ -263,6 +307,9 @@ def TInv (rule : Key → Rule) (L : LSt) (t : Tid) (th : Th) : Prop :=
   | .cas => InsInv rule L t th.k th.prev th.new ∧ CurrOk rule L th.k th.curr ∧ L.next th.new = th.curr
   | .fwalk => FInv L th.k th.prev th.must
   | .twalk => TrInv L th.prev th.seen th.snap
+  | .cfirst => CInvA rule L th.k th.prev th.snap
+  | .clast => CInvB rule L th.k th.prev th.first th.snap
+  | .cdist => CInvC rule L th.k th.prev th.first th.second th.seen th.snap
 
 /-- what a logged result guarantees, in every later state -/
 def ResOk (L : LSt) (t : Tid) : Res → Prop
@@ -274,6 +321,8 @@ def ResOk (L : LSt) (t : Tid) : Res → Prop
   | .touched _ => True
   | .broken _ => False
   | .sized _ => True
+  | .threw => True
+  | .count _ n lo hi => lo ≤ n ∧ n ≤ hi
 
 /-! ### stability of the other threads' invariants -/
 
@@ -389,6 +438,86 @@ theorem private_next_stable {rule} {L : LSt} {t u : Tid} {a : Act} {k : Key} {pr
     have : new ≠ p := fun he => h.notin (he ▸ ha.2.1.p_mem)
     simp only [LSt.apply, upd, this, ite_false]; exact hn
 
+theorem same_apply {rule} {L : LSt} {t : Tid} {a : Act} {k : Key} {x : Node} (g : Good rule L) (ha : ActOk rule L t a)
+    (hx : x ∈ L.chain) : Same rule (L.apply a) k x ↔ Same rule L k x := by
+  unfold Same; rw [key_apply x (g.alloc x hx) ha]
+
+theorem snapok_stable {L : LSt} {a : Act} {snap : List Node} (h : SnapOk L snap) : SnapOk (L.apply a) snap :=
+  ⟨h.nodup, fun x hx => mem_chain_apply (h.sub x hx)⟩
+
+theorem filter_same_apply {rule} {L : LSt} {t : Tid} {a : Act} {k : Key} {snap : List Node} (g : Good rule L)
+    (ha : ActOk rule L t a) (h : SnapOk L snap) :
+    snap.filter (fun x => sameKey rule ((L.apply a).key x) k) = snap.filter (fun x => sameKey rule (L.key x) k) := by
+  apply List.filter_congr
+  intro x hx
+  rw [key_apply x (g.alloc x (h.sub x hx)) ha]
+
+theorem cinva_stable {rule} {L : LSt} {t : Tid} {a : Act} {k : Key} {prev : Node} {snap : List Node}
+    (g : Good rule L) (ha : ActOk rule L t a) (h : CInvA rule L k prev snap) : CInvA rule (L.apply a) k prev snap := by
+  refine ⟨snapok_stable h.sok, mem_chain_apply h.prev_mem, ?_⟩
+  intro x hx hs
+  exact mem_aft_apply (h.ahead x hx ((same_apply g ha (h.sok.sub x hx)).mp hs))
+
+theorem cinvb_stable {rule} {L : LSt} {t : Tid} {a : Act} {k : Key} {prev first : Node} {snap : List Node}
+    (g : Good rule L) (ha : ActOk rule L t a) (h : CInvB rule L k prev first snap) :
+    CInvB rule (L.apply a) k prev first snap := by
+  refine ⟨snapok_stable h.sok, mem_chain_apply h.first_mem, (same_apply g ha h.first_mem).mpr h.first_same,
+    mem_chain_apply h.prev_mem, (same_apply g ha h.prev_mem).mpr h.prev_same, ?_, ?_⟩
+  · rcases h.prev_pos with h1 | h1
+    · exact Or.inl h1
+    · exact Or.inr (mem_aft_apply h1)
+  · intro x hx hs
+    rcases h.from_first x hx ((same_apply g ha (h.sok.sub x hx)).mp hs) with h1 | h1
+    · exact Or.inl h1
+    · exact Or.inr (mem_aft_apply h1)
+
+/-- membership behind an old node, seen from the list after an action -/
+theorem mem_aft_apply_old {rule} {L : LSt} {t : Tid} {a : Act} {q x : Node} (g : Good rule L) (ha : ActOk rule L t a)
+    (hq : q ∈ L.chain) (hx : x ∈ L.chain) (h : x ∈ aft q (L.apply a).chain) : x ∈ aft q L.chain := by
+  cases a with
+  | nop => exact h
+  | alloc => exact h
+  | setNext => exact h
+  | link p n =>
+    simp only [LSt.apply] at h
+    rcases mem_aft_insAfter_old g.nodup ha.2.1.n_notin hq h with h1 | ⟨h1, _⟩
+    · exact h1
+    · exact absurd (h1 ▸ hx) ha.2.1.n_notin
+
+theorem cinvc_stable {rule} {L : LSt} {t : Tid} {a : Act} {k : Key} {prev first : Node} {second : Option Node}
+    {seen snap : List Node} (g : Good rule L) (ha : ActOk rule L t a) (h : CInvC rule L k prev first second seen snap) :
+    CInvC rule (L.apply a) k prev first second seen snap := by
+  have hseen : ∀ y ∈ seen, y ∈ L.chain := by
+    intro y hy
+    have : y ∈ seen.reverse := by simpa using hy
+    exact (upto_sublist _ _).subset (h.tr.sub.subset this)
+  refine ⟨snapok_stable h.sok, mem_chain_apply h.first_mem, (same_apply g ha h.first_mem).mpr h.first_same, ?_, ?_, ?_, ?_, ?_⟩
+  · rw [filter_same_apply g ha h.sok]; exact trinv_stable g ha h.tr
+  · rcases h.prev_pos with h1 | h1
+    · exact Or.inl h1
+    · exact Or.inr (mem_aft_apply h1)
+  · cases second with
+    | none => trivial
+    | some c =>
+      obtain ⟨h1, h2, h3⟩ := h.sec
+      exact ⟨mem_chain_apply h1, fun hs => h2 ((same_apply g ha h1).mp hs), mem_aft_apply h3⟩
+  · intro y hy hc
+    by_cases hyo : y ∈ L.chain
+    · have hy' : y ∈ aft first L.chain := mem_aft_apply_old g ha h.first_mem hyo hy
+      have hc' : ∀ c, second = some c → c ∈ aft y L.chain := by
+        intro c hcs
+        have hcm : c ∈ L.chain := by
+          have := h.sec; rw [hcs] at this; exact this.1
+        exact mem_aft_apply_old g ha hyo hcm (hc c hcs)
+      rcases h.between y hy' hc' with h1 | h1
+      · exact Or.inl ((same_apply g ha hyo).mpr h1)
+      · exact Or.inr h1
+    · exact Or.inr (fun hs => hyo (h.sok.sub y hs))
+  · intro y hy
+    rcases h.seen_ok y hy with h1 | h1
+    · exact Or.inl ((same_apply g ha (hseen y hy)).mpr h1)
+    · exact Or.inr h1
+
 theorem tinv_stable {rule} {L : LSt} {t u : Tid} {a : Act} {th : Th}
     (g : Good rule L) (ha : ActOk rule L t a) (hut : u ≠ t) (h : TInv rule L u th) :
     TInv rule (L.apply a) u th := by
@@ -421,6 +550,12 @@ theorem tinv_stable {rule} {L : LSt} {t u : Tid} {a : Act} {th : Th}
     exact finv_stable g ha h
   · rename_i hpc; simp only [hpc] at h
     exact trinv_stable g ha h
+  · rename_i hpc; simp only [hpc] at h
+    exact cinva_stable g ha h
+  · rename_i hpc; simp only [hpc] at h
+    exact cinvb_stable g ha h
+  · rename_i hpc; simp only [hpc] at h
+    exact cinvc_stable g ha h
 
 theorem resok_stable {rule} {L : LSt} {t u : Tid} {a : Act} {r : Res}
     (g : Good rule L) (ha : ActOk rule L t a) (h : ResOk L u r) : ResOk (L.apply a) u r := by
@@ -448,5 +583,7 @@ theorem resok_stable {rule} {L : LSt} {t u : Tid} {a : Act} {r : Res}
   | touched _ => trivial
   | broken _ => exact h
   | sized _ => trivial
+  | threw => trivial
+  | count _ _ _ _ => exact h
 
 end TbbVerif.C12
